@@ -21,14 +21,17 @@ from typing import Tuple
 from numpy import (
     abs,
     complex128,
+    finfo,
     float64,
     inf,
     pi,
     sum as array_sum,
+    vstack,
     zeros,
 )
 from numpy.linalg import (
     inv,
+    norm,
     pinv,
 )
 from numpy.typing import NDArray
@@ -59,6 +62,26 @@ from .utility import (
     _generate_circuit,
     _generate_time_constants,
 )
+
+
+def _column_scale(A: NDArray[float64]) -> NDArray[float64]:
+    # The columns can differ by many orders of magnitude (e.g., resistances
+    # versus reciprocal capacitances at high frequencies), which can cause
+    # the smallest ones to be discarded as noise unless the columns are scaled.
+    scale: NDArray[float64] = norm(A, axis=0)
+    scale[scale == 0.0] = 1.0
+
+    return scale
+
+
+def _pinv(A: NDArray[float64]) -> NDArray[float64]:
+    scale: NDArray[float64] = _column_scale(A)
+
+    # The cutoff for small singular values is the same as the one used by
+    # numpy.linalg.lstsq so that, e.g., a column of zeros is always ignored.
+    rcond: float = finfo(float64).eps * max(A.shape)
+
+    return (pinv(A / scale, rcond=rcond).T / scale).T
 
 
 def _update_circuit(
@@ -286,7 +309,7 @@ def _real_test(
     abs_X_exp: NDArray[float64] = abs(X_exp)
 
     # Fit using the real part
-    variables: NDArray[float64] = pinv(A_re).dot(X_exp.real / abs_X_exp)
+    variables: NDArray[float64] = _pinv(A_re).dot(X_exp.real / abs_X_exp)
     if add_capacitance:
         # Nullifies the capacitance without dividing by 0
         variables[-2] = 1e-18
@@ -312,7 +335,7 @@ def _real_test(
     X_fit: NDArray[complex128] = circuit.get_impedances(f) ** (-1 if admittance else 1)
 
     # Extract the corrected series/parallel inductance (and capacitance)
-    coefs: NDArray[float64] = pinv(A_im).dot((X_exp.imag - X_fit.imag) / abs_X_exp)
+    coefs: NDArray[float64] = _pinv(A_im).dot((X_exp.imag - X_fit.imag) / abs_X_exp)
     if add_capacitance:
         variables[-2:] = coefs
     else:
@@ -334,7 +357,7 @@ def _imaginary_test(
     abs_X_exp: NDArray[float64] = abs(X_exp)
 
     # Fit using the imaginary part
-    variables: NDArray[float64] = pinv(A_im).dot(X_exp.imag / abs_X_exp)
+    variables: NDArray[float64] = _pinv(A_im).dot(X_exp.imag / abs_X_exp)
 
     # Update the circuit and calculate the impedance or admittance
     _update_circuit(
@@ -361,6 +384,9 @@ def _complex_test(
     circuit: Circuit,
 ) -> NDArray[float64]:
     abs_X_exp: NDArray[float64] = abs(X_exp)
+    scale: NDArray[float64] = _column_scale(vstack((A_re, A_im)))
+    A_re = A_re / scale
+    A_im = A_im / scale
 
     # Fit using the complex impedance
     x: NDArray[float64] = inv(A_re.T.dot(A_re) + A_im.T.dot(A_im))
@@ -369,7 +395,7 @@ def _complex_test(
         X_exp.imag / abs_X_exp
     )
 
-    variables: NDArray[float64] = x.dot(y)
+    variables: NDArray[float64] = x.dot(y) / scale
 
     return variables
 
